@@ -34,6 +34,12 @@ Proof. reflexivity. Qed.
 Lemma K_post_src_mask k a : post_src_mask k a = (a =? k).
 Proof. reflexivity. Qed.
 
+(* the order of the statements in the redraw loop and in generate_signal_events:
+   the events are relocated first, the validity mask is taken on the relocated
+   events (the model's redraw / gen_group apply invalid_mask to map post_c ...) *)
+Lemma K_relocate_before_mask : redraw_relocate_before_mask = true /\ gen_relocate_before_mask = true.
+Proof. split; reflexivity. Qed.
+
 (* ------------------------------------------------------------ list plumbing *)
 Lemma zlen_app {A} (a b : list A) : zlen (a ++ b) = zlen a + zlen b.
 Proof. unfold zlen. rewrite app_length. lia. Qed.
@@ -218,6 +224,7 @@ Lemma cands_for_sound hi h di d t c :
     /\ (forall e', In e' (d_mc d) -> L <= e_sd e' <= U)
     /\ (exists e1 e2, In e1 (d_mc d) /\ In e2 (d_mc d) /\ e_sd e1 = L /\ e_sd e2 = U)
     /\ L < U
+    /\ 0 < h_hw h /\ c_wd c = h_hw h
     /\ in_band x (h_hw h) L U (e_sd e) = true
     /\ in_energy (h_er h) (e_en e) = true
     /\ c_wn c = e_mw e * h_flux h (e_en e)
@@ -229,13 +236,13 @@ Proof.
   remember (enum (e0 :: mc)) as emc eqn:Eemc. remember (enum (h_src h)) as esrc eqn:Eesrc.
   set (sds := map e_sd (e0 :: mc)). set (L := zmin_l (e_sd e0) sds). set (U := zmax_l (e_sd e0) sds).
   destruct ((U =? L) || (h_hw h =? 0)) eqn:Eg; [discriminate|].
-  apply orb_false_iff in Eg. destruct Eg as [EUL _]. apply Z.eqb_neq in EUL.
+  apply orb_false_iff in Eg. destruct Eg as [EUL Ehw]. apply Z.eqb_neq in EUL. apply Z.eqb_neq in Ehw.
   intros H Hc. inversion H; subst t. clear H.
   apply in_flat_map in Hc. destruct Hc as [[k [x ow]] [Hk Hc]].
   unfold src_cands in Hc. rewrite Emc in Hc. rewrite <- Eemc in Hc. cbv zeta in Hc.
   apply in_flat_map in Hc. destruct Hc as [[i e] [Hi Hc]]. cbn [fst snd] in Hc.
   destruct (in_band x (h_hw h) L U (e_sd e) && in_energy (h_er h) (e_en e)) eqn:Em; [|contradiction].
-  destruct Hc as [Hc|[]]. subst c. cbn [c_shg c_ds c_ev c_src c_wn].
+  destruct Hc as [Hc|[]]. subst c. cbn [c_shg c_ds c_ev c_src c_wn c_wd].
   apply andb_true_iff in Em. destruct Em as [Eb Ee].
   rewrite Eesrc in Hk. rewrite Eemc in Hi.
   apply enum_In in Hk. apply enum_In in Hi. destruct Hk as [Hk0 Hk]. destruct Hi as [Hi0 Hi].
@@ -254,6 +261,10 @@ Proof.
       unfold sds in E. apply in_map_iff in E. destruct E as [e2 [E1 E2]]. exists e2. split; assumption. }
     destruct A1 as [e1 [A1 B1]]. destruct A2 as [e2 [A2 B2]]. exists e1, e2. repeat split; assumption.
   - lia.
+  - (* a non-empty band has a positive half width *)
+    assert (HLU : L < U) by lia.
+    unfold in_band, band_lo_D, band_hi_D in Eb. apply andb_true_iff in Eb. destruct Eb as [B1 B2].
+    apply Z.leb_le in B1. apply Z.leb_le in B2. nia.
 Qed.
 
 Theorem construct_sound shgs dss tbl c :
@@ -268,8 +279,8 @@ Proof.
   apply enum_In in Hh. apply enum_In in Hd. destruct Hh as [Hh0 Hh]. destruct Hd as [Hd0 Hd].
   destruct (cands_for_sound _ _ _ _ _ _ Ht Hct) as [E1 [E2 [e [x [ow [L [U R]]]]]]].
   unfold cand_sound. exists h, d, e, x, ow, L, U. rewrite E1, E2.
-  destruct R as [R1 [R2 [R3 [R4 [R5 [R6 [R7 [R8 [R9 R10]]]]]]]]].
-  exact (conj Hh (conj Hh0 (conj Hd (conj Hd0 (conj R1 (conj R2 (conj R3 (conj R4 (conj R5 (conj R6 (conj R7 (conj R8 (conj R9 R10))))))))))))).
+  destruct R as [R1 [R2 [R3 [R4 [R5 [R6 [R7 [Rh [Rw [R8 [R9 R10]]]]]]]]]]].
+  exact (conj Hh (conj Hh0 (conj Hd (conj Hd0 (conj R1 (conj R2 (conj R3 (conj R4 (conj R5 (conj R6 (conj R7 (conj Rh (conj Rw (conj R8 (conj R9 R10))))))))))))))).
 Qed.
 
 (* ------------------------------------------------------------ np.unique *)
@@ -389,12 +400,13 @@ Section Gen.
   Variable tbl : list cand.
   (* the probabilities of the sampler: those of the current table *)
   Variable p : list Z.
-  Definition sampler_ok : Prop := p = map c_wn tbl.
+  Definition sampler_ok : Prop := p = samp_w tbl.
   Hypothesis Hp : sampler_ok.
 
   (* a candidate that may legitimately be drawn *)
   Definition drawable (c : cand) : Prop :=
-    In c tbl /\ ((Forall (fun c => 0 <= c_wn c) tbl /\ Exists (fun c => 0 < c_wn c) tbl) -> 0 < c_wn c).
+    In c tbl /\ ((Forall (fun c => 0 <= c_wn c) tbl /\ Exists (fun c => 0 < c_wn c) tbl
+                  /\ Forall (fun c => 0 < c_wd c) tbl) -> 0 < c_wn c).
 
   Lemma lookup_spec idxs meta :
     lookup tbl idxs = Ok meta ->
@@ -405,21 +417,51 @@ Section Gen.
     destruct (nth_error tbl i); [inversion Hi; reflexivity|discriminate].
   Qed.
 
-  Lemma nth_map_wn : forall (t : list cand) i c, nth_error t i = Some c -> nth i (map c_wn t) 0 = c_wn c.
+  Lemma nth_samp : forall (t : list cand) (W : Z) i c,
+    nth_error t i = Some c -> nth i (map (fun c => c_wn c * (W / c_wd c)) t) 0 = c_wn c * (W / c_wd c).
   Proof.
-    induction t as [|a t IH]; intros [|i] c H; cbn [nth_error map nth] in *; try discriminate.
+    induction t as [|a t IH]; intros W [|i] c H; cbn [nth_error map nth] in *; try discriminate.
     - inversion H; reflexivity.
     - apply IH; exact H.
   Qed.
 
+  Lemma zlcm_l_spec : forall l, Forall (fun d => 0 < d) l ->
+    0 < zlcm_l l /\ Forall (fun d => (d | zlcm_l l)) l.
+  Proof.
+    unfold zlcm_l. induction 1 as [|d l Hd H IH]; cbn [fold_right]; [split; [lia|constructor]|].
+    destruct IH as [I1 I2]. split.
+    - pose proof (Z.lcm_nonneg d (fold_right Z.lcm 1 l)) as Hn.
+      assert (Hz : Z.lcm d (fold_right Z.lcm 1 l) <> 0) by (intros E; apply Z.lcm_eq_0 in E; lia).
+      lia.
+    - constructor; [apply Z.divide_lcm_l|].
+      eapply Forall_impl; [|exact I2]. intros a Ha. cbv beta in *.
+      eapply Z.divide_trans; [exact Ha|apply Z.divide_lcm_r].
+  Qed.
+
+  (* the factor W / c_wd of every candidate is positive *)
+  Lemma samp_factor_pos c : Forall (fun c => 0 < c_wd c) tbl -> In c tbl -> 0 < zlcm_l (map c_wd tbl) / c_wd c.
+  Proof.
+    intros Hwd Hin. rewrite Forall_forall in Hwd. pose proof (Hwd c Hin) as Hd.
+    assert (Hall : Forall (fun d => 0 < d) (map c_wd tbl)).
+    { apply Forall_forall. intros d Hd'. apply in_map_iff in Hd'. destruct Hd' as [c' [<- Hc']]. apply Hwd; exact Hc'. }
+    destruct (zlcm_l_spec _ Hall) as [HW Hdiv]. rewrite Forall_forall in Hdiv.
+    destruct (Hdiv (c_wd c) (in_map c_wd _ _ Hin)) as [q Hq].
+    rewrite Hq, Z.div_mul by lia. nia.
+  Qed.
+
   Lemma lookup_drawable : forall idxs meta,
     (forall i, In i idxs ->
-       (Forall (fun c => 0 <= c_wn c) tbl /\ Exists (fun c => 0 < c_wn c) tbl) -> 0 < nth i (map c_wn tbl) 0) ->
+       (Forall (fun c => 0 <= c_wn c) tbl /\ Exists (fun c => 0 < c_wn c) tbl
+        /\ Forall (fun c => 0 < c_wd c) tbl) -> 0 < nth i (samp_w tbl) 0) ->
     Forall2 (fun i c => nth_error tbl i = Some c) idxs meta -> Forall drawable meta.
   Proof.
     intros idxs meta Hin HF. induction HF as [|i c idxs meta Hi HF IH]; constructor.
     - split; [apply (nth_error_In _ _ Hi)|]. intros Hw.
-      rewrite <- (nth_map_wn _ _ _ Hi). apply Hin; [left; reflexivity|exact Hw].
+      pose proof (Hin i (or_introl eq_refl) Hw) as Hpos. unfold samp_w in Hpos. cbv zeta in Hpos.
+      rewrite (nth_samp _ _ _ _ Hi) in Hpos.
+      destruct Hw as [Hnn [_ Hwd]].
+      pose proof (samp_factor_pos c Hwd (nth_error_In _ _ Hi)) as Hf.
+      rewrite Forall_forall in Hnn. pose proof (Hnn c (nth_error_In _ _ Hi)). nia.
     - apply IH. intros j Hj. apply Hin. right; exact Hj.
   Qed.
 
@@ -427,14 +469,17 @@ Section Gen.
     lookup tbl (fst (choice g p k)) = Ok meta ->
     zlen meta = Z.of_nat k /\ Forall drawable meta.
   Proof.
-    intros H. pose proof Hp as Hq. unfold sampler_ok in Hq. rewrite Hq in H. clear Hq. destruct (lookup_spec _ _ H) as [Hl HF]. destruct (Hc g (map c_wn tbl) k) as [Hlen Hpos].
+    intros H. pose proof Hp as Hq. unfold sampler_ok in Hq. rewrite Hq in H. clear Hq. destruct (lookup_spec _ _ H) as [Hl HF]. destruct (Hc g (samp_w tbl) k) as [Hlen Hpos].
     split; [unfold zlen; rewrite Hl, Hlen; reflexivity|].
-    apply (lookup_drawable _ _) with (2 := HF). intros i Hi [Hnn Hex].
+    apply (lookup_drawable _ _) with (2 := HF). intros i Hi [Hnn [Hex Hwd]].
     apply Hpos; [| |exact Hi].
-    - apply Forall_forall. intros w Hw. apply in_map_iff in Hw. destruct Hw as [c' [<- Hc']].
-      rewrite Forall_forall in Hnn. apply Hnn; exact Hc'.
+    - apply Forall_forall. intros w Hw. unfold samp_w in Hw. cbv zeta in Hw.
+      apply in_map_iff in Hw. destruct Hw as [c' [<- Hc']].
+      rewrite Forall_forall in Hnn. pose proof (Hnn c' Hc'). pose proof (samp_factor_pos c' Hwd Hc'). nia.
     - apply Exists_exists in Hex. destruct Hex as [c' [Hc' Hpp]]. apply Exists_exists.
-      exists (c_wn c'). split; [apply in_map; exact Hc'|exact Hpp].
+      exists (c_wn c' * (zlcm_l (map c_wd tbl) / c_wd c')). split.
+      + unfold samp_w. cbv zeta. apply (in_map (fun c => c_wn c * (zlcm_l (map c_wd tbl) / c_wd c)) _ _ Hc').
+      + pose proof (samp_factor_pos c' Hwd Hc'). nia.
   Qed.
 
   (* what every returned event of dataset ds (validity ranges rngs) satisfies *)
@@ -622,18 +667,18 @@ Theorem generate_valid (rng : Type) (choice : rng -> list Z -> nat -> list nat *
   (post : Z -> Z -> Z -> Z -> list Z) :
   choice_contract choice ->
   forall fuel g tbl dss n_signal n out g',
-  Forall (fun c => 0 <= c_wn c) tbl -> Exists (fun c => 0 < c_wn c) tbl ->
+  Forall (fun c => 0 <= c_wn c) tbl -> Exists (fun c => 0 < c_wn c) tbl -> Forall (fun c => 0 < c_wd c) tbl ->
   generate rng choice post fuel g tbl dss n_signal = Ok (n, out, g') ->
   forall ds evs ev, In (ds, evs) out -> In ev evs ->
   exists d c, py_get dss ds = Ok d /\ In c tbl /\ c_ds c = ds /\ 0 < c_wn c
     /\ ev = post (c_ds c) (c_shg c) (c_src c) (c_ev c)
     /\ in_ranges (d_rng d) ev.
 Proof.
-  intros Hc fuel g tbl dss n_signal n out g' Hnn Hex H ds evs ev Hin Hev.
+  intros Hc fuel g tbl dss n_signal n out g' Hnn Hex Hwd H ds evs ev Hin Hev.
   unfold generate in H.
-  destruct (generate_valid_aux rng choice post Hc tbl (map c_wn tbl) eq_refl _ _ _ _ _ _ _ H ds evs Hin) as [d [Hd HF]].
+  destruct (generate_valid_aux rng choice post Hc tbl (samp_w tbl) eq_refl _ _ _ _ _ _ _ H ds evs Hin) as [d [Hd HF]].
   rewrite Forall_forall in HF. destruct (HF ev Hev) as [[c [[Hc1 Hc2] [Hc3 Hc4]]] Hr].
-  exists d, c. repeat split; try assumption. apply Hc2. split; assumption.
+  exists d, c. repeat split; try assumption. apply Hc2. repeat split; assumption.
 Qed.
 
 Theorem generate_count_thm (rng : Type) (choice : rng -> list Z -> nat -> list nat * rng)
@@ -647,7 +692,7 @@ Theorem generate_count_thm (rng : Type) (choice : rng -> list Z -> nat -> list n
   /\ NoDup (map fst out).
 Proof.
   intros Hc fuel g tbl dss n_signal n out g' Hn H.
-  exact (generate_count rng choice post Hc tbl (map c_wn tbl) eq_refl fuel g dss n_signal n out g' Hn H).
+  exact (generate_count rng choice post Hc tbl (samp_w tbl) eq_refl fuel g dss n_signal n out g' Hn H).
 Qed.
 
 Theorem generate_per_dataset_thm (rng : Type) (choice : rng -> list Z -> nat -> list nat * rng)
@@ -656,10 +701,10 @@ Theorem generate_per_dataset_thm (rng : Type) (choice : rng -> list Z -> nat -> 
   forall fuel g tbl dss n_signal n out g',
   generate rng choice post fuel g tbl dss n_signal = Ok (n, out, g') ->
   exists meta,
-    lookup tbl (fst (choice g (map c_wn tbl) (Z.to_nat n_signal))) = Ok meta
+    lookup tbl (fst (choice g (samp_w tbl) (Z.to_nat n_signal))) = Ok meta
     /\ map fst out = zuniq (map c_ds meta)
     /\ (forall ds evs, In (ds, evs) out -> zlen evs = zlen (filter (fun c => c_ds c =? ds) meta)).
 Proof.
   intros Hc fuel g tbl dss n_signal n out g' H.
-  exact (generate_per_dataset rng choice post Hc tbl (map c_wn tbl) eq_refl fuel g dss n_signal n out g' H).
+  exact (generate_per_dataset rng choice post Hc tbl (samp_w tbl) eq_refl fuel g dss n_signal n out g' H).
 Qed.
